@@ -651,11 +651,138 @@ theorem parseLoop_st : ∀ (fuel : Nat) (c : Ctx) (base len : Nat) (prev : Optio
     unfold parseLoop
     dsimp only at hs ⊢
     split
-    next c' prev' res' heq =>
-      rw [heq] at hs
-      dsimp only at hs
-      split
-      · exact ih _ _ _ _ _ hs
-      · exact hs
+    · exact ih _ _ _ _ _ hs
+    · exact hs
+
+theorem any_eq_resp (U : List (List Bytes)) :
+    U.any (fun u => !u.isEmpty) = !(resp U).isEmpty := by
+  unfold resp
+  induction U with
+  | nil => rfl
+  | cons u U ih =>
+    cases hu : u.isEmpty <;> simp [hu, ih]
+
+theorem all_eq_resp (U : List (List Bytes)) :
+    U.all (fun u => u.isEmpty) = (resp U).isEmpty := by
+  unfold resp
+  induction U with
+  | nil => rfl
+  | cons u U ih =>
+    cases hu : u.isEmpty <;> simp [hu, ih]
+
+theorem body_of_empty {U : List (List Bytes)} (h : (resp U).isEmpty = true) : body U = [] := by
+  unfold body
+  rw [List.isEmpty_iff.mp h]
+  rfl
+
+def parseStart (c : Ctx) (base len : Nat) : Ctx :=
+  let c := { c with out := { c.out with outputCount := 0, firstOutput := true, gCur := [], gItems := [], gUnits := [], gPartial := false } }
+  emit c (.parseMsg ((c.buf.drop base).take len))
+
+theorem parse_out (c : Ctx) (base len : Nat) :
+    (parse c base len).1.out =
+      writeNewLine (parseLoop (len + 2) (parseStart c base len) base len none true).1.out := by
+  unfold parse parseStart
+  dsimp only
+
+/-- the output state after the unit loop of `parse` -/
+theorem parse_loop_st (c : Ctx) (base len : Nat) :
+    ∃ o : Out, (parse c base len).1.out = writeNewLine o ∧ BSt c.out.written c.out.flushes o := by
+  refine ⟨_, parse_out c base len, ?_⟩
+  apply parseLoop_st
+  right
+  exact ⟨by simp [parseStart, body, resp, joinSep], by simp [parseStart, resp], rfl, rfl, rfl⟩
+
+theorem framing (c : Ctx) (base len : Nat) :
+    let c' := (parse c base len).1
+    c'.out.gPartial = false →
+    c'.out.written = c.out.written ++ Spec.Message.frame c'.out.gUnits ∧
+    c'.out.flushes = c.out.flushes + (if c'.out.gUnits.any (fun u => !u.isEmpty) then 1 else 0) := by
+  intro c'
+  obtain ⟨o, ho, hb⟩ := parse_loop_st c base len
+  show c'.out.gPartial = false → _
+  have hc' : c'.out = writeNewLine o := ho
+  rw [hc']
+  intro hp
+  have hpo : o.gPartial = false := by
+    unfold writeNewLine writeSep at hp
+    split at hp <;> exact hp
+  rcases hb with hb | hb
+  · rw [hpo] at hb; exact absurd hb (by decide)
+  · obtain ⟨hwr, hf, _, _, hfl⟩ := hb
+    rw [frame_eq, any_eq_resp]
+    unfold writeNewLine writeSep
+    cases hr : (resp o.gUnits).isEmpty
+    · rw [hr] at hf
+      simp [hf, hr, hwr, hfl]
+      rfl
+    · rw [hr] at hf
+      simp [hf, hr, hwr, hfl, body_of_empty hr]
+
+theorem silent_message (c : Ctx) (base len : Nat) :
+    let c' := (parse c base len).1
+    c'.out.gPartial = false → c'.out.gUnits.all (fun u => u.isEmpty) = true →
+    c'.out.written = c.out.written ∧ c'.out.flushes = c.out.flushes := by
+  dsimp only
+  intro hp hall
+  have := framing c base len hp
+  rw [frame_eq, any_eq_resp] at this
+  rw [all_eq_resp] at hall
+  have hall' := List.isEmpty_iff.mp hall
+  simpa [hall'] using this
+
+/-! ### the ghost items are the independent encodings -/
+
+@[simp] theorem writeDelimiter_gItems (o : Out) : (writeDelimiter o).gItems = o.gItems := by
+  rw [writeDelimiter_eq]
+@[simp] theorem writeDelimiter_gCur (o : Out) : (writeDelimiter o).gCur = o.gCur := by
+  rw [writeDelimiter_eq]
+
+theorem basePrefix_eq (base : Int) :
+    basePrefix base =
+      (if base = 2 then Spec.Message.bytesOf "#B" else if base = 8 then Spec.Message.bytesOf "#Q"
+       else if base = 16 then Spec.Message.bytesOf "#H" else []) := by
+  unfold basePrefix
+  by_cases h2 : base = 2
+  · subst h2; rfl
+  · by_cases h8 : base = 8
+    · subst h8; rfl
+    · by_cases h16 : base = 16
+      · subst h16; rfl
+      · have e2 : ((2 : Int) == base) = false := by simpa using fun h => h2 h.symm
+        have e8 : ((8 : Int) == base) = false := by simpa using fun h => h8 h.symm
+        have e16 : ((16 : Int) == base) = false := by simpa using fun h => h16 h.symm
+        simp [Gen.basePrefixes, List.find?_cons, e2, e8, e16, h2, h8, h16]
+
+theorem toStr_chars (w : Nat) (hw : w = 32 ∨ w = 64) (v : Nat) (hv : v < 2^w) (base : Int) (sign : Bool) :
+    (IntFmt.toStrBaseSign w (if w == 32 then tbl32 else tbl64) v
+        (if w == 32 then Gen.bufU32 else Gen.bufU64) base sign).1.chars = IntFmt.canon w v base sign := by
+  have hlen := Lemmas.IntFmt.canon_len w hw v base sign hv
+  rcases hw with rfl | rfl
+  · have := (Lemmas.IntFmt.toStr_spec 32 tbl32 (by decide) (by decide) v Gen.bufU32 base sign hv).1
+    simp only [beq_self_eq_true, if_true]
+    rw [this, List.take_of_length_le]
+    have : Gen.bufU32 = 33 := rfl
+    omega
+  · have := (Lemmas.IntFmt.toStr_spec 64 tbl64 (by decide) (by decide) v Gen.bufU64 base sign hv).1
+    have h : ((64 : Nat) == 32) = false := by decide
+    simp only [h, Bool.false_eq_true, if_false]
+    rw [this, List.take_of_length_le]
+    have : Gen.bufU64 = 65 := rfl
+    omega
+
+theorem item_of_int (o : Out) (w : Nat) (hw : w = 32 ∨ w = 64) (v : Nat) (hv : v < 2^w) (base : Int)
+    (sign : Bool) (hcur : o.gCur = []) :
+    (resultIntBaseSign o w v base sign).gItems = o.gItems ++ [Spec.Message.intText w v base sign] ∧
+    (resultIntBaseSign o w v base sign).gCur = [] := by
+  unfold resultIntBaseSign
+  dsimp only
+  rw [toStr_chars w hw v hv base sign]
+  refine ⟨?_, rfl⟩
+  simp [bump, writeData, hcur, basePrefix_eq, Spec.Message.intText, charsToBytes]
+
+theorem item_of_text (o : Out) (d : Bytes) (hcur : o.gCur = []) :
+    (resultText o d).gItems = o.gItems ++ [Spec.Message.quote (d.takeWhile (· ≠ 0))] := by
+  simp [resultText, bump, writeData, hcur, Spec.Message.quote, escapeQuotes]
 
 end ScpiVerif.Lemmas.Framing
